@@ -38,7 +38,57 @@ OPS = ["B", "T", "C", "V", "N", "E", "K", "R", "D", "X", "Q", "Z"]
 
 
 # ---------------------------------------------------------------------------------------------- workloads
-def gen_workload(w, families=("json", "json", "json", "yaml", "xml", "xml", "csv", "plist")):
+class _PyA:
+    pass
+
+
+class _PyB:
+    pass
+
+
+PY_CLASSES = {"A": _PyA, "B": _PyB}
+
+
+def py_decode(v):
+    """JSON-encoded description -> Python object graph for graphtage.pydiff (tuples, sets of small ints - whose
+    iteration order does not depend on the hash seed - and instances of two small classes)."""
+    if isinstance(v, list):
+        return [py_decode(x) for x in v]
+    if isinstance(v, dict):
+        ks = set(v.keys())
+        if ks == {"$set"} and isinstance(v["$set"], list) and all(isinstance(x, int) and not isinstance(x, bool)
+                                                                   and 0 <= x < 64 for x in v["$set"]):
+            return set(v["$set"])
+        if ks == {"$tuple"} and isinstance(v["$tuple"], list):
+            return tuple(py_decode(x) for x in v["$tuple"])
+        if ks == {"$obj", "attrs"} and v["$obj"] in PY_CLASSES and isinstance(v["attrs"], dict) and \
+                all(isinstance(k, str) and k.isidentifier() and k.isascii() and not k.startswith("_") for k in v["attrs"]):
+            o = PY_CLASSES[v["$obj"]]()
+            for k, x in v["attrs"].items():
+                setattr(o, k, py_decode(x))
+            return o
+        return {k: py_decode(x) for k, x in v.items()}
+    return v
+
+
+def gen_py_value(w, depth=3):
+    if depth <= 0 or w.random() < 0.2:
+        return gen.gen_scalar(w)
+    c = w.random()
+    n = w.choice([0, 1, 2, 3, 4])
+    if c < 0.3:
+        return [gen_py_value(w, depth - 1) for _ in range(n)]
+    if c < 0.45:
+        return {"$tuple": [gen_py_value(w, depth - 1) for _ in range(n)]}
+    if c < 0.65:
+        return {"$set": sorted(set(w.randrange(8) for _ in range(n + 1)))}
+    if c < 0.85:
+        return {"$obj": w.choice(["A", "A", "B"]),
+                "attrs": {w.choice(["x", "y", "z", "name"]): gen_py_value(w, depth - 1) for _ in range(n)}}
+    return {w.choice(gen.KEY_POOL): gen_py_value(w, depth - 1) for _ in range(n)}
+
+
+def gen_workload(w, families=("json", "json", "json", "yaml", "xml", "xml", "csv", "plist", "py")):
     """Two documents of one family; the second is a mutation of the first (0.7), independent (0.25) or equal."""
     fam = w.choice(families)
     opts = {"allow_key_edits": w.random() < 0.8, "auto_match_keys": w.random() < 0.7,
@@ -59,6 +109,10 @@ def gen_workload(w, families=("json", "json", "json", "yaml", "xml", "xml", "csv
             b = a
         if fam == "plist":
             a, b = gen._plist_clean(a), gen._plist_clean(b)
+    elif fam == "py":
+        a = [gen_py_value(w, 3) for _ in range(w.randint(1, 3))]
+        b = gen.mutate(w, a, intensity=w.choice([1, 2, 3])) if rel < 0.75 else \
+            ([gen_py_value(w, 2) for _ in range(w.randint(1, 3))] if rel < 0.95 else a)
     elif fam == "xml":
         a = gen.gen_xml(w, w.choice([1, 2, 2, 3]))
         b = gen.mutate_xml(w, a) if rel < 0.7 else (gen.gen_xml(w, 2) if rel < 0.95 else a)
@@ -105,6 +159,9 @@ def build_tree(family, value, opts):
                 if isinstance(n, graphtage.StringNode):
                     n.quoted = False
         return t
+    if family == "py":
+        from graphtage import pydiff
+        return pydiff.build_tree(py_decode(value), o)
     if family == "xml":
         return gxml.build_tree(gen.xml_element(value), o)
     if family == "csv":
